@@ -245,7 +245,8 @@ func (h *host) drive(choices, junk []int, maxEv int, stopAtErr bool) {
 			}
 			nchoice++
 			arg = ((arg % h.lastOpt) + h.lastOpt) % h.lastOpt
-		} else if len(junk) > 0 && (len(h.trace) == 0 || h.trace[len(h.trace)-1].K == "line") {
+		} else if len(junk) > 0 {
+			// no choice is pending (start, after a line, after an error): the argument is documented as ignored
 			arg = junk[njunk%len(junk)]
 			njunk++
 		}
